@@ -70,9 +70,11 @@ def is_rcp_guard(G, alg, S, rcp_spec, sz):
     X = None
     fin = pos = False
     for g in G.args:
-        if g.op == 'flt' and g.args[1] is inf and g.args[0].op == 'fabs':
+        if g.op == 'flt' and g.args[1] is inf:
+            # |X| < inf, or X < inf next to 0 < X (the same set of values: finite and positive; NaN fails both forms)
             fin = True
-            X = g.args[0].args[0] if X is None or X is g.args[0].args[0] else False
+            x_ = g.args[0].args[0] if g.args[0].op == 'fabs' else g.args[0]
+            X = x_ if X is None or X is x_ else False
         elif g.op == 'flt' and g.args[0] is zero:
             pos = True
             X = g.args[1] if X is None or X is g.args[1] else False
@@ -189,7 +191,12 @@ def run(ctx):
                 else:
                     G, A_, B_ = g
                     zero = tm.fconst(0.0, sz)
-                    okG = G.op == 'fle' and G.args[0] is zero and S.eq(alg.nf(G.args[1]), kk)
+                    # the boundary k == 0 may fall on either side (both give a valid grazing / zero result), and the test may be written from
+                    # either end: 0 <= k, 0 < k select the refracted ray; k < 0, k <= 0 select the zero vector
+                    okG = G.op in ('fle', 'flt') and G.args[0] is zero and S.eq(alg.nf(G.args[1]), kk)
+                    if not okG and G.op in ('fle', 'flt') and G.args[1] is zero and S.eq(alg.nf(G.args[0]), kk):
+                        okG = True
+                        A_, B_ = B_, A_
                     if not okG:
                         bad = 'refract: guard is %s, expected k >= 0 with k = 1 - eta^2 (1 - (n.i)^2)' % tm.show(G, 0, 3)[:160]
                     elif any(not (tm.is_const(z) and tm.cbits(z) & ~(1 << (8 * sz - 1)) == 0) for z in B_):
@@ -276,7 +283,8 @@ def run(ctx):
                         ac = [x for x in res.args if x.op == 'acos_approx'][0]
                         sg = [x for x in res.args if x is not ac][0]
                         exp = S.div(S.dot(a, b), alg.sqrt_r(S.mul(len2, S.dot(b, b))))
-                        if not S.eq(alg.nf(ac.args[0]), exp):
+                        exp2 = S.div(S.dot(a, b), S.mul(alg.sqrt_r(len2), alg.sqrt_r(S.dot(b, b))))       # sqrt(p) sqrt(q) = sqrt(pq) for p, q >= 0
+                        if not S.eq(alg.nf(ac.args[0]), exp) and not S.eq(alg.nf(ac.args[0]), exp2):
                             bad = 'argument of acos is not dot / sqrt(|a|^2 |b|^2)'
                         else:
                             # signum(x) = NaN-propagating copysign(1, x)
@@ -288,7 +296,8 @@ def run(ctx):
                         bad = 'angle_between is not acos_approx(..): %s' % (tm.show(res, 0, 2)[:120] if isinstance(res, tm.T) else res)
                     else:
                         exp = S.div(S.dot(a, b), alg.sqrt_r(S.mul(len2, S.dot(b, b))))
-                        if not S.eq(alg.nf(res.args[0]), exp):
+                        exp2 = S.div(S.dot(a, b), S.mul(alg.sqrt_r(len2), alg.sqrt_r(S.dot(b, b))))
+                        if not S.eq(alg.nf(res.args[0]), exp) and not S.eq(alg.nf(res.args[0]), exp2):
                             bad = 'argument of acos is not dot / sqrt(|a|^2 |b|^2)'
                 else:
                     # angle_to (2D): atan2(perp_dot, dot)
